@@ -406,8 +406,10 @@ PROPS["C07"] = {
     "level_text": "Placements and durations of a real would-block period relative to requests on other connections of the same worker are generated. Sampled, not exhaustive.",
     "level_note": "Real back-pressure, not a simulated EAGAIN (with a simulated one a correct implementation would be woken continuously and the attempt bound would be a false alarm). Latency verdicts follow the 3x replay rule; the attempt-count verdict is not time-dependent.",
     "assumptions": ["a 4 KiB SO_SNDBUF/SO_RCVBUF pair fills after a few KiB so that the remaining hundreds of KiB stay pending"],
-    "quick": {"stages": [{"kind": "replay"}, {"kind": "rc", "procs": 6, "cases": 4, "maxlen": 200}]},
-    "thorough": {"stages": [{"kind": "replay"}, {"kind": "rc", "procs": 8, "cases": 60, "maxlen": 200}]},
+    "quick": {"stages": [{"kind": "replay"}, {"kind": "rc", "procs": 6, "cases": 4, "maxlen": 200},
+                         {"kind": "rc", "source": "c07_wakeup.cc", "noshrink": True, "procs": 4, "cases": 10, "maxlen": 40}]},
+    "thorough": {"stages": [{"kind": "replay"}, {"kind": "rc", "procs": 8, "cases": 60, "maxlen": 200},
+                            {"kind": "rc", "source": "c07_wakeup.cc", "noshrink": True, "procs": 8, "cases": 120, "maxlen": 40}]},
 }
 
 PROPS["C15"] = {
